@@ -279,6 +279,36 @@ Section Read.
   Qed.
 End Read.
 
+(* nesting of what is written *)
+Lemma fold_max_le {A} (f : A -> N) d l : Forall (fun x => f x <= d) l -> fold_right (fun x m => N.max (f x) m) 0 l <= d.
+Proof. induction 1 as [|x r Hx _ IH]; cbn [fold_right]; lia. Qed.
+Lemma entries_depth_le es d : Forall (fun e => vdepth (en_val e) <= d) es -> entries_depth (map etriple es) <= 1 + d.
+Proof.
+  intros H. unfold entries_depth. assert (G : fold_right (fun e m => N.max (vdepth (snd (fst e))) m) 0 (map etriple es) <= d); [|lia].
+  induction H as [|e r He _ IH]; cbn [map fold_right]; [lia|]. unfold etriple at 1. cbn [fst snd]. lia.
+Qed.
+Lemma vdepth_strs l : vdepth (BList (map BStr l)) <= 1.
+Proof. cbn [vdepth]. assert (fold_right (fun x m => N.max (vdepth x) m) 0 (map BStr l) <= 0); [|lia]. apply fold_max_le. apply Forall_forall. intros x Hx. apply in_map_iff in Hx as [s [<- _]]. cbn. lia. Qed.
+Lemma vdepth_tiers al : vdepth (BList (map it_val (map litem al))) <= 2.
+Proof.
+  cbn [vdepth]. assert (fold_right (fun x m => N.max (vdepth x) m) 0 (map it_val (map litem al)) <= 1); [|lia].
+  apply fold_max_le. apply Forall_forall. intros x Hx. apply in_map_iff in Hx as [i [<- Hi]]. apply in_map_iff in Hi as [l [<- _]].
+  unfold litem. cbn [it_val]. apply vdepth_strs.
+Qed.
+Lemma write_entries_depth raw v k cd tr ul hs : vdepth v < 64 ->
+  entries_depth (map etriple (write_entries raw v k cd tr ul hs)) <= max_bencode_depth.
+Proof.
+  intros Hv. eapply N.le_trans; [apply (entries_depth_le _ 63)|unfold max_bencode_depth; lia].
+  assert (O : forall b e, vdepth (en_val e) <= 63 -> Forall (fun e => vdepth (en_val e) <= 63) (oent b e)) by (intros b e H; destruct b; cbn [oent]; auto).
+  unfold write_entries. repeat (apply Forall_app; split); apply O.
+  - cbn. lia.
+  - cbn [e_al en_val]. pose proof (vdepth_tiers (tr_al tr)). lia.
+  - cbn. lia.
+  - unfold e_strs, litem. cbn [en_val it_val]. pose proof (vdepth_strs hs). lia.
+  - cbn [e_info en_val]. lia.
+  - unfold e_strs, litem. cbn [en_val it_val]. pose proof (vdepth_strs ul). lia.
+Qed.
+
 Lemma url_ok_nonempty u : url_ok u = true -> u <> [].
 Proof. intros H ->. unfold url_ok in H. cbn in H. discriminate. Qed.
 
@@ -303,18 +333,20 @@ Proof. unfold trackers_of. now intros -> ->. Qed.
 
 (* Reading back the file storrent serves for a torrent: the same info dictionary byte for byte
    (hence the same info-hash), the same creation date, the same tracker tiers and the same web
-   seeds, whatever they are — provided the info dictionary is one bencoded value that
-   MetadataComplete accepts (it is: the torrent was accepted), the URLs are ones the reader
+   seeds, whatever they are — provided the info dictionary is one bencoded value, nesting
+   less than 64 levels, that MetadataComplete accepts (it is: the torrent was accepted), the URLs are ones the reader
    accepts and every string is shorter than 2 GiB. *)
 Theorem write_read raw v k g cd tr ul hs :
-  bdecode raw = BOk v [] k -> metadata_complete raw = MOk g ->
+  bdecode raw = BOk v [] k -> vdepth v < 64 -> metadata_complete raw = MOk g ->
   (- 2 ^ 63 <= cd < 2 ^ 63)%Z -> tiers_ok tr -> urls_ok ul -> urls_ok hs ->
   read_torrent (write_torrent raw cd tr ul hs) = ROk raw g cd tr ul hs.
 Proof.
-  intros Hdec Hmeta Hcd Htr Hul Hhs.
+  intros Hdec Hdep Hmeta Hcd Htr Hul Hhs.
   assert (Hraw : selfgood raw v k).
   { intros rest. unfold bdecode in Hdec. rewrite <- (app_nil_r raw) in Hdec at 2. exact (bparse_local _ _ _ _ _ Hdec rest). }
   unfold read_torrent, decode_btor. rewrite (write_kvs raw v k), (top_entries_good _ (write_entries_ok raw v k cd tr ul hs Hraw Hcd Htr Hul Hhs)).
+  replace (max_bencode_depth <? entries_depth (map etriple (write_entries raw v k cd tr ul hs))) with false
+    by (pose proof (write_entries_depth raw v k cd tr ul hs Hdep); lia).
   rewrite (fold_written raw v k cd tr ul hs Hcd). cbn [b_upto Nat.leb b_info b_cdate b_urllist b_httpseeds]. rewrite Hmeta.
   f_equal.
   - rewrite <- (trackers_rt tr Htr) at 2. apply trackers_of_ext; reflexivity.
